@@ -58,6 +58,11 @@ def main():
             if out.want(rid):
                 pr = fem.project(vqs, region)
                 out.write({"id": rid, "kind": "project", "nt": True, "projected": q(pr.reshape(mesh.npoints, -1), S), "nodal": q(nodal, S), "tol": 32})
+                # any positive measure handed over as dV= (e.g. deformed volumes) still reproduces a field of the region's own space
+                wq = rng.choice([0.5, 1.0, 1.5, 2.0], size=region.dV.shape)
+                prw = fem.project(vqs, region, dV=wq * region.dV)
+                out.write({"id": rid + "-measure", "kind": "project", "nt": True, "projected": q(prw.reshape(mesh.npoints, -1), S), "nodal": q(nodal, S),
+                           "tol": 32})
                 pr2 = fem.project(vqs, region, average=False)
                 out.write({"id": rid + "-noavg", "kind": "project-noavg", "nt": True, "ncomp": size, "cells": [qi(c) for c in mesh.cells],
                            "extrapolated": q(pr2.reshape(-1, size), S), "nodal": q(nodal, S), "tol": 32})
@@ -169,6 +174,19 @@ def main():
                         vo = sig.reshape(9, sig.shape[2], sig.shape[3])
                     out.write({"id": rid, "kind": "celldata", "nt": True, "name": name, "cd": [q(got[c], S) for c in range(got.shape[0])],
                                "qv": [[q(vo[:, qq, c], S) for qq in range(vo.shape[1])] for c in range(vo.shape[2])]})
+                    # derived per-cell data: means of the quadrature-point principal values / of the equivalent (von Mises) value
+                    if got.shape[1] != 9:
+                        ssym = (sig + np.einsum("ij...->ji...", sig)) / 2 if st is None else sig
+                        pv = np.asarray(fem.math.eigvalsh(sig), float)                   # (3, q, c)
+                        gp = np.asarray(cd["Principal Values of " + name])
+                        out.write({"id": rid + "-principal", "kind": "celldata", "nt": True, "name": "Principal Values of " + name,
+                                   "cd": [q(gp[c], S) for c in range(gp.shape[0])],
+                                   "qv": [[q(pv[:, qq, c], S) for qq in range(pv.shape[1])] for c in range(pv.shape[2])]})
+                        vm = np.asarray(fem.math.equivalent_von_mises(sig), float)       # (q, c)
+                        ge = np.asarray(cd["Equivalent of " + name]).reshape(-1, 1)
+                        out.write({"id": rid + "-equivalent", "kind": "celldata", "nt": True, "name": "Equivalent of " + name,
+                                   "cd": [q(ge[c], S) for c in range(ge.shape[0])],
+                                   "qv": [[q([vm[qq, c]], S) for qq in range(vm.shape[0])] for c in range(vm.shape[1])]})
             # tools.save(gradient=...): the "Cauchy Stress" point data of the file = Cauchy stress shifted to the points (mean over cells)
             rid = "topoints-save-cauchy-%s-%d" % (kind, rep)
             if kind == "hex" and out.want(rid):
